@@ -26,7 +26,7 @@ Proof. induction l as [|[k' w] l IH]; cbn; [reflexivity|]. destruct (String.eqb 
 (* the variables of a frame and of a scope agree as maps (the order of the bindings may differ: forEach binds _x and
    _forEachIndex in one order when it starts and in the other when it goes round) *)
 Definition vars_match (l:list (string*rvalue)) (m:list (string*value)) : Prop :=
-  forall k, assoc k m = option_map cv (assoc k l).
+  forall k, hidden k = false -> assoc k m = option_map cv (assoc k l).
 Lemma assoc_assoc_set {A} k' k (v:A) l : assoc k' (assoc_set k v l) = if String.eqb k' k then Some v else assoc k' l.
 Proof.
   induction l as [|[k0 v0] l IH]; cbn [assoc_set assoc].
@@ -37,9 +37,9 @@ Proof.
       apply String.eqb_eq in E0. subst k0. rewrite String.eqb_sym, E. reflexivity.
 Qed.
 Lemma vars_match_mvars l : vars_match l (mvars l).
-Proof. intros k. apply assoc_mvars. Qed.
+Proof. intros k _. apply assoc_mvars. Qed.
 Lemma vars_match_set k v l m : vars_match l m -> vars_match (assoc_set k v l) (assoc_set k (cv v) m).
-Proof. intros H k'. rewrite !assoc_assoc_set, (H k'). destruct (String.eqb k' k); reflexivity. Qed.
+Proof. intros H k' HK. rewrite !assoc_assoc_set, (H k' HK). destruct (String.eqb k' k); reflexivity. Qed.
 
 Definition frame_match (sc:scope) (f:frame) : Prop :=
   vars_match (sc_vars sc) (f_vars f) /\ f_ns f = sc_ns sc /\ (f_bubble f = true /\ f_scope f = sc_name sc).
@@ -61,19 +61,19 @@ Proof. unfold moved. intros H1 H2. rewrite <- H2, <- H1. reflexivity. Qed.
 Lemma moved_set_pos f p : moved f (set_pos f p). Proof. destruct f; reflexivity. Qed.
 Lemma moved_set_vars f vs : moved f (set_vars f vs). Proof. destruct f; reflexivity. Qed.
 
-Lemma lookup_match k : forall scs fs, Forall2 frame_match scs fs -> lookup_frames k fs = option_map cv (lookup_scopes k scs).
+Lemma lookup_match k : hidden k = false -> forall scs fs, Forall2 frame_match scs fs -> lookup_frames k fs = option_map cv (lookup_scopes k scs).
 Proof.
-  induction 1 as [|sc f scs fs (V & N & B) H IH]; cbn [lookup_frames lookup_scopes]; [reflexivity|].
-  rewrite (V k), (proj1 B). destruct (assoc k (sc_vars sc)); cbn; [reflexivity|exact IH].
+  intros HK. induction 1 as [|sc f scs fs (V & N & B) H IH]; cbn [lookup_frames lookup_scopes]; [reflexivity|].
+  rewrite (V k HK), (proj1 B). destruct (assoc k (sc_vars sc)); cbn; [reflexivity|exact IH].
 Qed.
 
-Lemma assign_match k v : forall scs fs, Forall2 frame_match scs fs ->
+Lemma assign_match k v : hidden k = false -> forall scs fs, Forall2 frame_match scs fs ->
   (exists scs' fs', assign_scopes k v scs = Some scs' /\ assign_frames k (cv v) fs = Some fs' /\
                     Forall2 frame_match scs' fs' /\ Forall2 kept fs fs') \/
   (assign_scopes k v scs = None /\ assign_frames k (cv v) fs = None).
 Proof.
-  induction 1 as [|sc f scs fs (V & N & B) H IH]; [right; split; reflexivity|].
-  cbn [assign_scopes assign_frames]. rewrite (V k).
+  intros HK. induction 1 as [|sc f scs fs (V & N & B) H IH]; [right; split; reflexivity|].
+  cbn [assign_scopes assign_frames]. rewrite (V k HK).
   destruct (assoc k (sc_vars sc)) as [w|]; cbn [option_map].
   - left. eexists _, _. split; [reflexivity|]. split; [reflexivity|]. split.
     + constructor; [|exact H]. split; [cbn; apply vars_match_set; exact V|split; [exact N|exact B]].
@@ -95,7 +95,7 @@ Proof. split; intros; reflexivity. Qed.
 Lemma env_ok_of s r f rest : Match s r (f :: rest) -> env_ok (loc_of s) (glob_of s) r (f :: rest) (f_ns f).
 Proof.
   intros [F N]. split.
-  - intros k w H. rewrite (lookup_match k _ _ F). unfold loc_of in H. rewrite H. reflexivity.
+  - intros k w HK H. rewrite (lookup_match k HK _ _ F). unfold loc_of in H. rewrite H. reflexivity.
   - intros k w H. unfold glob_of in H. rewrite (world_nss _ _ _ N), assoc_mnss.
     inversion F as [|sc f0 scs fs (V & NS & B) F' E1 E2]; subst. unfold cur_ns_of in H. try rewrite <- E1 in H. rewrite NS.
     destruct (assoc (sc_ns sc) (st_nss s)) as [m|]; [|discriminate]. cbn [option_map]. rewrite assoc_mvars, H. reflexivity.
@@ -129,7 +129,7 @@ Definition At (s:sstate) (reg:rvalue) (r:rt) (c:context) (f:frame) (rest:list fr
 (* ---------------------------------------------------------------- pure statements and blocks, big-step *)
 Inductive pstmt (s:sstate) (reg:rvalue) : stmt -> rvalue -> sstate -> Prop :=
 | PSExpr e v : pev (loc_of s) (glob_of s) e v -> pstmt s reg (SExpr e) v s
-| PSAssign n e v : n <> "" -> pev (loc_of s) (glob_of s) e v ->
+| PSAssign n e v : n <> "" -> hidden (lower n) = false -> pev (loc_of s) (glob_of s) e v ->
     pstmt s reg (SAssign n e) reg (if is_local n then assign_local s n v else rns_set s (cur_ns_of s) n v)
 | PSLocal n e v : n <> "" -> pev (loc_of s) (glob_of s) e v -> pstmt s reg (SLocal n e) reg (bind_here s n v).
 
@@ -155,11 +155,11 @@ Proof.
   induction 1 as [s reg|s reg st reg1 s1 HS|s reg st reg1 s1 st2 rest reg' s' HS HB IH]; intros [|f] L;
     try (exfalso; match type of L with ?x <= 0 => assert (1 <= x) by apply bsize_pos; lia end); cbn [bsize] in L.
   - reflexivity.
-  - cbn [eval_block]. destruct HS as [e v HE|n e v NN HE|n e v NN HE]; cbn [ssize] in L;
+  - cbn [eval_block]. destruct HS as [e v HE|n e v NN HH HE|n e v NN HE]; cbn [ssize] in L;
       rewrite (proj2 (proj1 (pure_ref _ _) e v HE) s f (renv_ok_of s)) by lia;
       destruct (data_not_nil _ (pev_data _ _ _ _ HE)) as [D1 D2]; destruct v; try contradiction; reflexivity.
   - cbn [eval_block]. cbn [bsize] in IH.
-    destruct HS as [e v HE|n e v NN HE|n e v NN HE]; cbn [ssize] in L;
+    destruct HS as [e v HE|n e v NN HH HE|n e v NN HE]; cbn [ssize] in L;
       rewrite (proj2 (proj1 (pure_ref _ _) e v HE) s f (renv_ok_of s)) by lia;
       destruct (data_not_nil _ (pev_data _ _ _ _ HE)) as [D1 D2];
       rewrite <- (IH f) by lia; destruct v; try contradiction; reflexivity.
@@ -204,7 +204,7 @@ Proof.
   intros HS r c f rest below pre post (G & EF & M & LB & top & EV & RR) FR EC EP.
   pose proof (fresh_under c top below EV FR) as UT.
   assert (B : f_base f <= length (c_values c)) by (rewrite EV, app_length; lia).
-  destruct HS as [e v HE|n e v NN HE|n e v NN HE]; cbn [compile_stmt] in *.
+  destruct HS as [e v HE|n e v NN HH HE|n e v NN HE]; cbn [compile_stmt] in *.
   - (* expression statement *)
     destruct (proj1 (pure_sim _ _) e v HE r c f rest pre post G EF EC EP B (env_ok_of s r f rest M)) as [S1 NV].
     eexists _, _, _, rest. split; [exact S1|]. split; [|split; [apply moved_set_pos|split; [reflexivity|apply kept_all_refl]]].
@@ -239,7 +239,7 @@ Proof.
       unfold r1 in S2, G2. rewrite upd_cur_twice in S2, G2.
       pose proof (steps_trans _ _ _ S1 S2) as S3.
       unfold assign_local. try rewrite <- E1.
-      destruct (assign_match (lower n) v _ _ F2) as [(scs' & fs' & A1 & A2 & M' & K)|[A1 A2]].
+      destruct (assign_match (lower n) v HH _ _ F2) as [(scs' & fs' & A1 & A2 & M' & K)|[A1 A2]].
       * unfold assign_local_var in *. rewrite A2 in *. rewrite A1.
         cbn [c_frames c2 set_values c1' set_frames] in K. inversion K as [|fa fb ra rb K1 K2 Ea Eb]; subst.
         inversion M' as [|sc' fb' scs'' rb' FM' F'' Ea' Eb']; subst.
